@@ -22,7 +22,7 @@ ASSUMPTIONS = ['letters with context-dependent or one-to-many case mappings are 
 LEVEL_TEXT = ('Seeded sampling of the (role name, form, target, credentials, context) space with an oracle that is '
               'independent of any case-folding routine; the space is infinite, so sampling with a structured generator is the level.')
 LEVEL_NOTE = 'trusted: the letter table is verified at start-up to be one-to-one under str.lower/str.upper'
-PLAN = {'quick': dict(shards=4, wall=60), 'thorough': dict(shards=16, wall=400)}
+PLAN = {'quick': dict(shards=4, wall=120), 'thorough': dict(shards=16, wall=400)}
 MIN = {'evaluations': 5000, 'allow_decisions': 500, 'deny_decisions': 500, 'case_variant_matches': 100, 'sequence_decisions': 1000, 'non_dict_credentials': 1000, 'list_form_role_names': 200, 'overlapping_evaluations': 100, 'case_variant_key_decisions': 5000, 'case_variant_keys_told_apart': 500}
 ANCHORS = ['oslo_policy._checks:RoleCheck.__call__', 'oslo_policy.policy:Enforcer.enforce']
 REQUIRED_ANCHORS = ['oslo_policy.policy:Enforcer.enforce']
